@@ -12,6 +12,7 @@ import Proofs.E2E.C16Raw
 import Proofs.C16.LG
 import Proofs.C16.SilentPaymentsE2E
 import Proofs.C16.SilentPaymentsGroups
+import Proofs.C16.SilentPaymentsGroupsConv
 import Proofs.C16.Reductions
 import Proofs.C16.EciesExample
 import Proofs.E2E.C16Uncond
@@ -374,18 +375,17 @@ theorem sp_sender_group_is_chain (H : Bytes → Bytes → Bytes) (secret Bspend 
 
 /-- **T9 (`output_keys` is the walk in address order).** btclib's `output_keys` groups the addresses by scan key
 (`groups.setdefault`), derives the keys group by group with `k` counting inside a group, and then puts them back in
-the order of the addresses (`positions`, `first`): model `outputKeys`, mirrored line by line.  Whenever that answers —
-the scan points the addresses carry are points of the curve, never infinity (`hnz`: `keys_from_address` decodes them
-with `point_from_octets`) — it answers exactly the one-walk specification `outputKeysWalk`: recipient `i` gets
-`x(B_m_i + t_k•G)` under its scan key's secret with `k` = the number of EARLIER recipients with that scan key, at
-position `i`.  So the re-ordering (`positionsOf`, `groupOffset`) puts every key where its address was, for any
-interleaving of scan keys, repeated and labelled addresses. (One direction: that `outputKeys` answers whenever the walk
-does is not proved; the `sp.output_keys` / `sp.output_keys_walk` streams compare both with btclib.) -/
+the order of the addresses (`positions`, `first`): model `outputKeys`, mirrored line by line.  It answers a key list
+EXACTLY WHEN the one-walk specification `outputKeysWalk` does, and the same one — the scan points the addresses carry
+being points of the curve, never infinity (`hnz`: `keys_from_address` decodes them with `point_from_octets`) —:
+recipient `i` gets `x(B_m_i + t_k•G)` under its scan key's secret with `k` = the number of EARLIER recipients with that
+scan key, at position `i`.  So the re-ordering (`positionsOf`, `groupOffset`) puts every key where its address was, and
+the `K_MAX` refusal is the same, for any interleaving of scan keys, repeated and labelled addresses.  (Agreement of the
+two forms on REFUSED inputs — which error — is not stated; all model errors of the two are `err value`.) -/
 theorem sp_output_keys_is_walk (L : LawfulGroup o G) (H : Bytes → Bytes → Bytes) (keys : List (Int × Bool))
-    (outpoints : List Bytes) (recips : List (α × α)) (hnz : ∀ r ∈ recips, L.abs r.1 ≠ 0) (outs : List Bytes)
-    (h : outputKeys o H keys outpoints recips = .ok outs) :
-    outputKeysWalk o H keys outpoints recips = .ok outs :=
-  outputKeys_is_walk L H keys outpoints recips hnz outs h
+    (outpoints : List Bytes) (recips : List (α × α)) (hnz : ∀ r ∈ recips, L.abs r.1 ≠ 0) (outs : List Bytes) :
+    outputKeys o H keys outpoints recips = .ok outs ↔ outputKeysWalk o H keys outpoints recips = .ok outs :=
+  ⟨outputKeys_is_walk L H keys outpoints recips hnz outs, walk_is_outputKeys L H keys outpoints recips hnz outs⟩
 
 /-- **T9 (end to end: what the sender creates for an address, that address's scanner finds).** The sender pays ANY list
 of addresses — several scan keys, repeated addresses, any order — with `output_keys` AS BTCLIB COMPUTES IT (`outputKeys`:
